@@ -98,6 +98,11 @@ class C13(Case):
         n = sp.get("n", 3)
         members = self._members(mk, n, cls_name, sp.get("mixed", False))
         consts = self._consts(mk, sp)
+        # instances of T (and of a subclass) that exist in the registry but are NOT members of the supplied domain: a
+        # variable over a supplied domain must never range over them, even when the domain holds no instance of T at all
+        outside = [T(**{f: mk.int("out%d.%s" % (i, f)) for f in FIELDS[cls_name]}) for i in range(1)]
+        if cls_name == "P3":
+            outside.append(P3Sub(**{f: mk.int("outsub.%s" % f) for f in FIELDS[cls_name]}))
         holders = None
         if sp.get("nested"):
             holders = [Holder(p=mk.ref("h%d.p" % i, members), k=mk.int("h%d.k" % i)) for i in range(2)]
@@ -218,6 +223,11 @@ def shapes(tier, seed):
     out.append(dict(cls="P3", pos=[S(0)], n=n, mixed=True))
     out.append(dict(cls="P3Sub", kw={"a": S(0)}, n=n, mixed=True))
     out.append(dict(cls="P3Sub", kw={}, n=n, mixed=True))
+    # domains holding no instance of T at all (empty, or only foreign objects)
+    for kw in ({}, {"a": S(0)}):
+        out.append(dict(cls="P3", kw=kw, n=0))
+        out.append(dict(cls="P3", kw=kw, n=0, domain="tuple"))
+        out.append(dict(cls="H2", kw=kw, n=0))
     # nested predicate-form term as a field value
     for kw in ({"a": S(0)}, {"a": S(0), "b": S(1)}, {}):
         out.append(dict(cls="P3", kw=kw, n=2, nested=True))
